@@ -13,7 +13,7 @@ ID = 'C11'
 LEVEL = 'model_checking'
 RULE = ('every grammar sentence (clause or directive) with <= N tokens over one representative per token class, each '
         'with every token replaced by the other members of its lexical class, plus boundary families enumerated '
-        'completely: numeral spellings (0 00 01 007 10 123 20 digits) x 5 term positions; numerals of 50 .. 9000 digits (around Python\'s limit of 4300 digits); 16 variable names that are '
+        'completely: numeral spellings (0 00 01 007 10 123 20 digits) x 5 term positions; characters outside the lexicon (byte order marks, zero-width space, NUL, ^Z, no-break space) as first / last / only character; numerals of 50 .. 9000 digits (around Python\'s limit of 4300 digits); 16 variable names that are '
         'Python constants / engine names / loop-variable look-alikes x 4 clause shapes; 24 predicate names (Python '
         'keywords, suffix look-alikes, quoted names with spaces, operators, digits, non-ASCII, empty) as clause head; '
         'bodies that cannot succeed; 26 words of the target language (yield, return, pass, doBreak, ...) as atoms, functor names and goal names in succeeding and never-succeeding clauses; conjunction length 1..30, a grid of mixed sizes (0..20 goals x if-then-else nested 0..12 deep x 0/4/9 structured head arguments; 1..25 negated goals; 1..9 if-then-else goals in sequence), head arity 0..40, term nesting 1..120, list length '
@@ -44,6 +44,11 @@ def families():
     for digits in (50, 640, 4299, 4300, 4301, 5000, 9000):
         n = '1' + '0' * (digits - 2) + '7'
         out += [('long-numeral', t) for t in ('foo(%s).' % n, 'foo(X) :- X = %s.' % n, 'foo :- bar(%s, 0%s).' % (n, n))]
+    # characters outside the lexicon at the very start, the very end and alone (byte order marks,
+    # zero-width characters, NUL, ^Z): rejected - and rejected alike through the file API, which
+    # decodes the bytes itself
+    for ch in ('\ufeff', '\ufffe', '\u200b', '\x00', '\x1a', '\xa0', '#'):
+        out += [('foreign-first-character', t) for t in (ch + 'foo(a).', ch, 'foo(a).' + ch, 'foo(a).\n' + ch + 'bar(b).', ch + ch + 'foo(a).')]
     vs = ['X', 'True', 'False', 'None', 'ATOM_NIL', 'Query', 'L1', 'Arg1', '_x', '__', '_1', 'X_y', 'DoBreak', 'CutIf1',
           'Yield', '__builtins__', '_L1', 'Unify']
     for v in vs:
